@@ -23,6 +23,108 @@ BP = "lace::debugger::breakpoint::Breakpoints"
 EXEC = "lace::runtime::RunState::execute"
 
 
+def _removal_loop(prog, rem):
+    """the written-out form of `retain(|b| b.address != address)`: an index walks the list from 0 in steps of one up to `len`, and
+    the only change to the list is `Vec::remove(i)` (order-preserving) under `list[i].address == address`.
+    True only when every clause below is read off the MIR; anything else stays a violation."""
+    vec_mut = [(b, t, c) for b, t, c in rem.calls() if any(a.startswith("&mut") for a in t.get("arg_tys", []))]
+    removes = [(b, t) for b, t, c in vec_mut if c and c.endswith("Vec::<T, A>::remove")]
+    if not removes or len(removes) != len(vec_mut):
+        return False                                  # some other mutator (swap_remove, drain, sort, a helper taking &mut self)
+    for b in rem.live_blocks():                       # no assignment through self
+        for s in rem.stmts(b):
+            if s["k"] == "assign" and s["p"]["l"] == 1 and s["p"].get("pr"):
+                return False
+    idx = {rem.expr(t["args"][1], 3, stop={"named"}) for b, t in removes}
+    vecs = {kit.strip_refs(rem.expr(t["args"][0], 6, stop={"named"})) for b, t in removes}
+    if len(idx) != 1 or len(vecs) != 1:
+        return False
+    ie, vplace = idx.pop(), vecs.pop()
+    if ie[0] != "local":
+        return False
+    lps = kit.loops(rem)
+    inloop = [(h, body) for h, (body, latches) in lps.items() if all(b in body for b, t in removes)]
+    if len(inloop) != 1:
+        return False
+    head, body = inloop[0]
+    # the index: 0 before the loop, one `+ 1` inside it
+    zero, steps = 0, 0
+    for kind, db, i, node in rem.defs().get(ie[1], []):
+        if kind != "stmt":
+            return False
+        e = rem.rvalue_expr(node["r"], 6, stop={"named"})
+        if e == ("const", 0) and db not in body:
+            zero += 1
+        elif e[0] == "bin" and e[1] == "Add" and e[2][:2] == ie[:2] and e[3] == ("const", 1) and db in body:
+            steps += 1
+        else:
+            return False
+    if zero != 1 or steps != 1:
+        return False
+    succ = rem.succ_map()
+    def edge_truth(d, tgt):
+        sw = rem.term(d)
+        allv = [v for v, x in sw["targets"]]
+        vals = [v for v, x in sw["targets"] if x == tgt]
+        if tgt == sw["otherwise"] and not vals and allv == [0]:
+            return True
+        if vals == [0] and tgt != sw["otherwise"]:
+            return False
+        return None
+    elem = ("field", ("deref", ("call", "<alloc::vec::Vec<T, A> as core::ops::index::Index<I>>::index", (("ref", vplace), ie))), "address")
+    def strip_names(e):
+        return tuple(strip_names(x) if isinstance(x, tuple) else x for x in (e[:2] if e and e[0] in ("local", "arg") else e))
+    # every Vec::remove sits under `list[i].address == address`, i untouched in between
+    for b, t in removes:
+        found = False
+        for d in rem.dominators().get(b, ()):
+            sw = rem.term(d)
+            if d == b or sw["k"] != "switch":
+                continue
+            c = rem.expr(sw["a"], 8, stop={"named"})
+            if c[0] != "bin" or c[1] not in ("Eq", "Ne"):
+                continue
+            toward = [s for s in succ[d] if s == b or rem.dominates(s, b)]
+            if len(toward) != 1:
+                continue
+            tr = edge_truth(d, toward[0])
+            if tr is None or (tr if c[1] == "Eq" else not tr) is not True:
+                continue
+            sides = {strip_names(c[2]), strip_names(c[3])}
+            if sides != {strip_names(elem), ("arg", 2)}:
+                continue
+            # no step of the index between the comparison and the removal
+            mids = {x for x in rem.reachable(toward[0], avoid={b, d}) if b in rem.reachable(x)} | {toward[0]}
+            if any(db in mids for kind, db, i, node in rem.defs().get(ie[1], [])):
+                continue
+            found = True
+        if not found:
+            return False
+    # the walk ends only at `i < len` turning false (or once a removal has happened)
+    rblocks = {b for b, t in removes}
+    for x in body:
+        for s in succ[x]:
+            if s in body:
+                continue
+            if any(rem.dominates(rb, x) for rb in rblocks):
+                continue
+            sw = rem.term(x)
+            if sw["k"] == "assert":
+                continue                              # the overflow check of `i + 1`; its failure edge is not in succ
+            if sw["k"] != "switch":
+                return False
+            c = rem.expr(sw["a"], 8, stop={"named"})
+            tr = edge_truth(x, s)
+            if c[0] != "bin" or tr is None:
+                return False
+            op = c[1] if tr else {"Lt": "Ge", "Le": "Gt", "Gt": "Le", "Ge": "Lt"}.get(c[1])
+            a, b2 = strip_names(c[2]), strip_names(c[3])
+            ln = ("call", "alloc::vec::Vec::<T, A>::len", (("ref", strip_names(vplace)),))
+            if not ((op == "Ge" and a == strip_names(ie) and b2 == ln) or (op == "Le" and b2 == strip_names(ie) and a == ln)):
+                return False
+    return True
+
+
 def run(ctx):
     prog = ctx.prog
     eff = Effects(prog)
@@ -273,6 +375,8 @@ def run(ctx):
                 return None
             e = cf.local_expr(0, 8, stop={"named"})
             ok = keeps_other_addresses(cf, e) == "ne"
+    if not ok and not ret:
+        ok = _removal_loop(prog, rem)
     ctx.oblig(ok, {"remove": "retain(|b| b.address != address)"}, "order-preserving filter")
     if not ok:
         ctx.violation("remove-shape", rem.file_line(), "remove is not a retain(address != given): it may disturb the order or keep the breakpoint")
